@@ -132,6 +132,7 @@ struct pr {
 	int		sidelen;
 	int64_t		stuck_since;
 	_Atomic int	stop_pending, cont_pending;
+	int		noexec;
 };
 static struct pr prs[MAXP];
 static _Atomic int nprs;
@@ -139,11 +140,12 @@ static pthread_mutex_t side_lock = PTHREAD_MUTEX_INITIALIZER;	/* the side-channe
 int __real_pthread_mutex_lock(pthread_mutex_t *);
 int __real_pthread_mutex_unlock(pthread_mutex_t *);
 static char exe_path[512];
+static int have_true;
 static __thread struct pr *tl_submitting;
 
 static struct {
 	uint64_t cases, requests, type_r, type_w, closes_before_start, closes_running, closes_after_exit, terms_sent, kills_sent, acks, deaths,
-		 bytes_r, bytes_w, full_escalations, schedule_checks, two_loop_cases, zombies_written_off, joint_exits, stops_sent, stops_reaped, conts_reaped;
+		 bytes_r, bytes_w, full_escalations, schedule_checks, two_loop_cases, zombies_written_off, joint_exits, noexec_children, stops_sent, stops_reaped, conts_reaped;
 } S;
 
 static struct pr *pr_by_pid(int pid)
@@ -155,6 +157,21 @@ static struct pr *pr_by_pid(int pid)
 	return NULL;
 }
 
+/* the parent is held up for a moment right after fork() returned (a de-schedule at the worst place): a child that exits at once is
+ * then dead, and its SIGCHLD delivered to whichever thread reaps, before the forking thread has done anything with the pid */
+static void fork_window_delay(void)
+{
+	static __thread uint64_t x;
+	struct timespec ts = { 0, 0 };
+	if (x == 0)
+		x = (uint64_t)(uintptr_t)&x | 1;
+	x ^= x << 13; x ^= x >> 7; x ^= x << 17;
+	if ((x >> 20) % 100 < 65)
+		return;
+	ts.tv_nsec = (x >> 30) % 100 < 60 ? 50000 + (long)((x >> 40) % 450000) : 3000000 + (long)((x >> 40) % 3000000);
+	nanosleep(&ts, NULL);
+}
+
 void hk_fork(pid_t pid)
 {
 	if (pid > 0 && tl_submitting != NULL) {
@@ -162,6 +179,7 @@ void hk_fork(pid_t pid)
 		/* the child will report its start: an external actor is at work from now on */
 		atomic_fetch_add(&tl_submitting->outstanding, 1);
 		vt_ext_add(1);
+		fork_window_delay();
 	}
 }
 
@@ -508,6 +526,17 @@ static void submit(struct loopthr *lt, struct pr *p)
 		p->argv[i] = p->argbuf[i];
 	p->argv[6] = NULL;
 	p->req->file = exe_path;
+	if (p->beh == B_EXIT0 && have_true && rng_pct(&lt->rng, 35)) {
+		/* a program that ends at once, within about a millisecond of the fork, without any report.  (Not a program that cannot be
+		 * executed: the library's child then calls perror() and exit(), which in a child forked from a multi-threaded process under
+		 * AddressSanitizer can block for ever on an allocator lock that another thread held at the moment of the fork - seen as a
+		 * sleeping child and a hang of the case, an artefact of the sanitizer run-time, see DESIGN.md 10.) */
+		p->noexec = 1;
+		p->nbytes = 0;
+		p->req->file = "/bin/true";
+		snprintf(p->argbuf[5], 32, "0");
+		S.noexec_children++;
+	}
 	p->req->argv = p->argv;
 	p->req->type = p->typestr;
 	tl_submitting = p;
@@ -666,6 +695,15 @@ static void wd_dump(void)
 {
 	int i;
 	mon_printf("NOTE wd: ext_pending=%d phase=%d nprs=%d now=%lld\n", vt_ext_pending(), (int)mt_phase, nprs, (long long)vt_now());
+	for (i = 0; i < nprs; i++) {
+		char pth[64], st[256];
+		int fd, n;
+		st[0] = 0;
+		snprintf(pth, sizeof(pth), "/proc/%d/stat", (int)prs[i].pid);
+		fd = open(pth, O_RDONLY);
+		if (fd >= 0) { n = (int)__real_read(fd, st, 80); if (n > 0) st[n] = 0; __real_close(fd); }
+		mon_printf("NOTE wd: req %d noexec=%d procstat=[%s]\n", i, prs[i].noexec, st);
+	}
 	for (i = 0; i < nprs; i++)
 		mon_printf("NOTE wd: req %d type=%s beh=%d close_mode=%d pid=%d outstanding=%d dead=%d started=%d closed=%d nkills=%d acks=%d sidelen=%d\n", i,
 			   prs[i].type_r ? "r" : "w", prs[i].beh, prs[i].close_mode, (int)prs[i].pid, (int)prs[i].outstanding, (int)prs[i].dead_reaped,
@@ -736,6 +774,7 @@ int main(int argc, char **argv)
 	if (readlink("/proc/self/exe", exe_path, sizeof(exe_path) - 1) < 0)
 		_exit(2);
 	g_prop = "C19";
+	have_true = access("/bin/true", X_OK) == 0;
 	vt_init();
 	vt_set_perturb((int)arg_ll(argc, argv, "--perturb", 1));
 	iv_set_fatal_msg_handler(mt_fatal);
@@ -745,11 +784,11 @@ int main(int argc, char **argv)
 		run_case(i, seed);
 	mon_printf("STAT method=%s cases=%llu requests=%llu type_r=%llu type_w=%llu closed_before_child_started=%llu closed_while_running=%llu closed_after_exit=%llu "
 		   "sigterm_sent=%llu sigkill_sent=%llu acks=%llu deaths_reaped=%llu full_escalations=%llu schedule_checks=%llu bytes_read=%llu bytes_written=%llu "
-		   "stops_sent=%llu stops_seen_by_library=%llu continues_seen_by_library=%llu two_loop_cases=%llu joint_exit_stimuli=%llu zombies_written_off=%llu shim_quiescences=%llu time_advances=%llu violations=%d\n", g_method, (unsigned long long)S.cases, (unsigned long long)S.requests,
+		   "children_that_end_at_once=%llu stops_sent=%llu stops_seen_by_library=%llu continues_seen_by_library=%llu two_loop_cases=%llu joint_exit_stimuli=%llu zombies_written_off=%llu shim_quiescences=%llu time_advances=%llu violations=%d\n", g_method, (unsigned long long)S.cases, (unsigned long long)S.requests,
 		   (unsigned long long)S.type_r, (unsigned long long)S.type_w, (unsigned long long)S.closes_before_start, (unsigned long long)S.closes_running,
 		   (unsigned long long)S.closes_after_exit, (unsigned long long)S.terms_sent, (unsigned long long)S.kills_sent, (unsigned long long)S.acks,
 		   (unsigned long long)S.deaths, (unsigned long long)S.full_escalations, (unsigned long long)S.schedule_checks, (unsigned long long)S.bytes_r,
-		   (unsigned long long)S.bytes_w, (unsigned long long)S.stops_sent, (unsigned long long)S.stops_reaped, (unsigned long long)S.conts_reaped, (unsigned long long)S.two_loop_cases, (unsigned long long)S.joint_exits, (unsigned long long)S.zombies_written_off, (unsigned long long)vt_stats.quiescences, (unsigned long long)vt_stats.time_advances, mon_viol_total);
+		   (unsigned long long)S.bytes_w, (unsigned long long)S.noexec_children, (unsigned long long)S.stops_sent, (unsigned long long)S.stops_reaped, (unsigned long long)S.conts_reaped, (unsigned long long)S.two_loop_cases, (unsigned long long)S.joint_exits, (unsigned long long)S.zombies_written_off, (unsigned long long)vt_stats.quiescences, (unsigned long long)vt_stats.time_advances, mon_viol_total);
 	mon_printf("DONE\n");
 	return 0;
 }
